@@ -29,6 +29,10 @@ def fault_jobs(rng, nh, thorough, per_op=40):
     for i in range(nh):
         g = gen.Gen(rng.randrange(1 << 30), focus={"insert": 5, "insert_multiple": 3, "remove": 4, "update": 4, "update_all": 1, "drop": 2, "remove_all": 2, "reopen": 0, "fail": 0.0, "bad": 0.0}, handles=0.1)
         hist.append((i % 2, g.history(g.r.choice([6, 9, 12]), p_read=0.25), g))
+    g = gen.Gen(rng.randrange(1 << 30), handles=0.0)          # ... and one whose batch has several hundred points
+    hist.append((1, [{"op": "insert", "p": g.point(0), "m": -1, "compact": 0},
+                     {"op": "insert_multiple", "ps": [g.point(t=min(gen.NT - 1, 1 + k // 12)) for k in range(300)], "m": -1, "bad": 0}], g))
+    nh = len(hist)
     base = traces.record_all([("h%d" % i, "csv", ai, ops, [], 3, 3, {"io": True}) for i, (ai, ops, g) in enumerate(hist)])
     jobs = []
     for i, (ai, ops, g) in enumerate(hist):
